@@ -51,7 +51,7 @@ ASSUMPTIONS = [
 RULE = ("handlers making 1-5 set_cookie/clear_cookie/set_signed_cookie calls (optionally interleaved with clear()) and ending in finish / "
         "send_error / raise HTTPError / uncaught exception / Finish / redirect / auto-finish, over names/values/attributes with separators, quotes, "
         "backslashes, controls, DEL, non-ASCII, non-latin-1, plus every single byte 0-255 (and 8 wide code points) at start/middle/end "
-        "of every cookie field, plus every ending x 8 cookie programs x every placement of clear(); non-trivial = at least one Set-Cookie line was emitted and read back; distinct by canonical JSON")
+        "of every cookie field, plus every ending x 14 cookie programs (incl. cookies flush could not send, calls that raise after a returned call, every way to ask for an expiry) x every placement of clear(); clock pinned; non-trivial = at least one Set-Cookie line was emitted and read back; distinct by canonical JSON")
 EXHAUSTIVE = {"quick": True, "thorough": True}
 CLAUSES = {
     "either that call raises or the response is sent with a Set-Cookie header that parse_cookie reads back as exactly that name and value":
